@@ -66,6 +66,7 @@ Clause(name, e) ==
 Failing(e) == {name \in ClauseNames : ~Clause(name, e)}
 
 SeenOf(e) == {e.a, Rec.w.conv}
+   \cup (IF "api" \in DOMAIN e THEN {"api-" \o e.api} ELSE {})
    \cup (IF e.a = "Load" /\ Len(e.arr.dims) >= 4 THEN {"3-extras"} ELSE {})
    \cup (IF e.a \in {"Ravel", "URavel"} /\ "err" \in DOMAIN e.obs THEN {"refused"} ELSE {})
    \cup (IF e.a = "Ravel" /\ e.name # NoName THEN {"custom-name"} ELSE {})
@@ -96,7 +97,7 @@ Step ==
 
 TSpec == TInit /\ [][Step]_tvars
 
-Required == {"Load", "Ravel", "URavel", "Wind", "UWind", "refused", "custom-name", "index-collision",
+Required == {"Load", "Ravel", "URavel", "Wind", "UWind", "api-make_linear", "refused", "custom-name", "index-collision",
              "wind-default", "wind-axis", "wind-negaxis", "wind-dim", "linear-not-last", "3-extras",
              "cf1d", "cf2d", "shoc_simple", "shoc_standard", "arakawa", "ugrid",
              "kind-face", "kind-left", "kind-back", "kind-node", "kind-edge"}
